@@ -32,7 +32,7 @@ use avh::common::*;
 use serde_json::{json, Value};
 
 const QS: f64 = 16.0;
-/// "just below / just above" offset of the demand classes [W] (= one lattice unit of the model)
+/// "just below / just above" offset of the demand classes [W] (= `Delta` of ConsistSplit.tla, two lattice units)
 const DELTA: f64 = 0.125;
 
 pub const CLASSES: [&str; 17] = [
@@ -329,6 +329,8 @@ fn exec(desc: &Value, tr: &mut Tracer) -> anyhow::Result<()> {
 /// Seeded random mixed consists of 1..8 units (differing ratings, efficiencies, aux loads, ramp lags,
 /// floors, capacities and SOC), both policies, random sequences over the demand classes with
 /// dt in {1/2, 1, 2} s: the earlier steps are the ramp / SOC history of the later ones.
+/// Domain: battery capacity >= 32 s of rated power (dt <= DtSafe of C09, the SOC stays inside its window),
+/// engine floors >= rating/8 (above the code's rating/10, so the floor stays dyadic).
 fn gen(seed: u64, n: usize, tier: &str) -> Vec<Value> {
     let mut out = vec![];
     let maxsteps = if tier == "quick" { 8 } else { 14 };
